@@ -81,6 +81,9 @@ def gen_case(rng, cid, families=None, kinds=('mh', 'pt'), allow_saveload=True,
         nt = rng.choice(ntemps_choices)
         bs = sorted(rng.sample(DYADIC_BETAS, nt - 1), reverse=True)
         c.betas = [1.0] + bs
+        # a hottest level at a vanishing (still exactly representable) inverse temperature now and then
+        if nt >= 2 and random.Random(c.seed ^ 0xBE7A).random() < 0.12:
+            c.betas[-1] = 2.0 ** -1000
         rng.shuffle(c.betas) if rng.random() < 0.3 else None
         c.swap_interval = rng.choice([1, 1, 2, 3, 4])
         c.dynamic = allow_dynamic and nt >= 3 and rng.random() < 0.5
